@@ -84,6 +84,20 @@ TASKS = [
      'input: q/1. input: s/1. output: p/1.'),
     ('constraint-on-private-atom-in-spec-program', 'program', 'p(X) :- q(X). bad(X) :- q(X), s(X). :- bad(X).', 'p(X) :- q(X).',
      'input: q/1. input: s/1. output: p/1.'),
+    # specification formulas with an equivalence inside an implication (either orientation), inside a conjunction, under
+    # quantifiers on one side only: what equivalence breaking may and may not split; true and false claims
+    ('spec-equivalence-under-implication', 'spec', 'spec: r -> (p <-> q). spec: r <- (p <-> q).', 'r :- p, q. r :- not p, not q.',
+     'input: p/0. input: q/0. output: r/0.'),
+    ('spec-equivalence-under-implication-false', 'spec', 'spec: r <- (p <-> q).', 'r :- p, q.', 'input: p/0. input: q/0. output: r/0.'),
+    ('spec-equivalence-under-implication-fo', 'spec', 'spec: forall X (t(X) -> (p(X) <-> q(X))). spec: forall X (s(X) -> (t(X) <- (p(X) <-> q(X)))).',
+     't(X) :- s(X), p(X), q(X). t(X) :- s(X), not p(X), not q(X).', 'input: p/1. input: q/1. input: s/1. output: t/1. assumption: forall X (p(X) or q(X) -> s(X)).'),
+    ('spec-equivalence-in-conjunction-and-antecedent', 'spec', 'spec: forall X (t(X) <-> p(X)) and forall Y (u(Y) <-> exists Z (q(Z) and Z = Y)). '
+     'spec: (forall X (t(X) <-> u(X))) -> forall X (p(X) -> q(X)).', 't(X) :- p(X). u(X) :- q(X).', 'input: p/1. input: q/1. output: t/1. output: u/1.'),
+    # one placeholder name written at two sorts (the user guide declares one, a formula writes the other)
+    ('placeholder-name-at-two-sorts', 'spec', 'assumption: n$i >= 1. spec: forall X (p(X) <-> q(X) and X != n).', 'p(X) :- q(X), X != n.',
+     'input: n. input: q/1. output: p/1.'),
+    ('placeholder-name-at-two-sorts-symbol', 'spec', 'assumption: c$i > 0. spec: forall X (p(X) <-> q(X) and X != c$s and X != c$i).', 'p(X) :- q(X), X != c.',
+     'input: c -> symbol. input: q/1. output: p/1.'),
     # false claims (refutable obligations): weakened or vacuous premises cannot hide behind a true claim
     ('false-placeholder-integer', 'program', 'p(1..n).', 'p(X) :- X = 0..n.', 'input: n -> integer. output: p/1. assumption: n >= 0.'),
     ('false-placeholder-general', 'program', 'p(X) :- q(X), X != c.', 'p(X) :- q(X), not r(X). r(c). r(0).', 'input: c. input: q/1. output: p/1.'),
